@@ -63,6 +63,22 @@ def main(argv=None):
                 print(f"KNOWN-FINDING: property={prop} {e['id']}: {e['what']}")
             e["_live"] = hit is not None
 
+        # 1b. regression replays: minimal failing nights of defects that were repaired in /repo (`fixed:` entries).
+        # They suppress nothing: if one fails again it is reported as a violation.
+        regress_hits = []
+        rdir = os.path.join(VERIF, "regress")
+        n_regress = 0
+        if os.path.isdir(rdir):
+            for fn in sorted(os.listdir(rdir)):
+                if fn.startswith(prop + "-") and fn.endswith(".json"):
+                    n_regress += 1
+                    _, hit = fw.replay_file(family, os.path.join(rdir, fn))
+                    if hit is not None:
+                        regress_hits.append((os.path.join(rdir, fn), hit))
+        for path, hit in regress_hits:
+            print(f"violation (regression of a repaired defect): clause={hit['clause']} :: {hit['message'][:400]}")
+            print(f"VIOLATION property={prop} replay={path}")
+
         # 2. the seeded search
         family, seed, results, harness_errors, wall = fw.run_batch(
             prop, a.tier, nights=a.nights, workers=a.workers, wall_s=a.wall,
@@ -124,13 +140,13 @@ def main(argv=None):
             print(f"VIOLATION property={prop} replay={path}")
             reported += 1
         if not a.no_evidence:
-            fw.write_evidence(family, a.tier, seed, results, time.time() - t_start, len(new), known_reproduced,
-                              extra_cov=dict(extra_cov, known_finding_matches_suppressed=suppressed))
+            fw.write_evidence(family, a.tier, seed, results, time.time() - t_start, len(new) + len(regress_hits), known_reproduced,
+                              extra_cov=dict(extra_cov, known_finding_matches_suppressed=suppressed, regression_replays_run=n_regress, regression_replays_failing=len(regress_hits)))
         if not a.quiet:
             tot = sum(r["stats"]["polls"] for r in results.values())
             print(f"{prop} {a.tier}: nights={len(results)} polls={tot} new_violations={len(new)} "
                   f"known_matches={suppressed} wall={time.time() - t_start:.1f}s")
-        return 1 if new else 0
+        return 1 if (new or regress_hits) else 0
     except fw.HarnessError as e:
         print(f"HARNESS-ERROR: {e}")
         return 2
